@@ -159,7 +159,7 @@ def shrink_line(px, ast, line, rng):
             l = G.render_line(r, a).strip() if s == 0 else G.render_line(r, a)
             exp = G.canon_expected("instruction", ast=a)
             got = G.impl_line(px, l, 1)
-            if got != exp:
+            if G.property_view(got) != G.property_view(exp):
                 return a, l, exp, got
     return ast, line, G.canon_expected("instruction", ast=ast), G.impl_line(px, line, 1)
 
@@ -230,7 +230,7 @@ def run(ctx):
         for (ast, line, exp), i, m in zip(items, impl, model):
             if i != m:
                 note_corr("parse_line[%s]" % label, {"line": line, "impl": i, "model": m})
-            if i != exp:
+            if G.property_view(i) != G.property_view(exp):
                 nonlocal n_spec
                 if n_spec >= 3:
                     n_spec += 1
@@ -303,7 +303,7 @@ def run(ctx):
         if len(parts) != 3 or parts[0] != "1" or core.unesc(parts[1]) != text or parts[2] != exp:
             n_spec_tie += 1
             note_corr("spec-renderer", {"line": text, "lean": rep[:400], "expected": exp})
-        if got != exp:
+        if G.property_view(got) != G.property_view(exp):
             note_violation("parse_line(%r) = %s, written: %s" % (text, got, exp),
                            {"kind": "line", "line": text, "expected": exp, "observed": got, "ast": l["ast"]},
                            key=FIXED_KEY if bare_first(l["ast"]) else None)
@@ -349,11 +349,13 @@ def run(ctx):
         elif bad or impl != model:
             diff = next((p for p in zip(impl, model) if p[0] != p[1]), (len(impl), len(model)))
             note_corr("parse_file", {"content": content, "start": start, "first_difference": diff})
-        if impl != expected:
+        view = lambda rows: [(n, t, G.property_view(c)) for n, t, c in rows]
+        if isinstance(impl, tuple) or view(impl) != view(expected):
             if isinstance(impl, tuple):
                 obs = impl
             else:
-                obs = next((p for p in zip(impl, expected) if p[0] != p[1]), ("lengths", len(impl), len(expected)))
+                obs = next((p for p in zip(impl, expected) if (p[0][0], p[0][1], G.property_view(p[0][2])) !=
+                            (p[1][0], p[1][1], G.property_view(p[1][2]))), ("lengths", len(impl), len(expected)))
             note_violation("parse_file: result differs from the lines as written: %s" % (obs,),
                            {"kind": "file", "content": content, "start": start,
                             "expected": [list(x) for x in expected], "observed": str(obs)[:1000]})
@@ -413,11 +415,12 @@ def replay(ctx, path):
     if kind == "line":
         got = G.impl_line(px, rep["line"], 1)
         print("parse_line(%r)\n  observed: %s\n  written:  %s" % (rep["line"], got, rep["expected"]))
-        rc = 0 if got == rep["expected"] else 1
+        rc = 0 if G.property_view(got) == G.property_view(rep["expected"]) else 1
     elif kind == "file":
         got = impl_file(px, rep["content"], rep["start"])
         exp = [tuple(x) for x in rep["expected"]]
-        ok = got == exp
+        view = lambda rows: [(n, t, G.property_view(c)) for n, t, c in rows]
+        ok = not isinstance(got, tuple) and view(got) == view(exp)
         print("parse_file(%r, %d): %s" % (rep["content"], rep["start"], "as written" if ok else "differs: %s" % (got,)))
         rc = 0 if ok else 1
     else:
